@@ -30,7 +30,7 @@ Semantics (what the language prescribes; sources: README, compiler/src/tests/*.r
   * `&&` / `||` evaluate their right operand only when the left one does not decide; `(x) or y` evaluates y only when x is nil;
   * a failing assert, zero divisor, overflow, `get nil`, index out of range stops the program there with a failure status."""
 import z3
-from core import (Fail, Unsupported, OutOfBound, NIL, ListRef, Cell, Fn, Obj, list_builtin, LIST_BUILTINS, MapRef, map_key, map_builtin, MAP_BUILTINS, is_sym, is_int, is_bool, arith, compare, negate, logic_not,
+from core import (Module, Fail, Unsupported, OutOfBound, NIL, ListRef, Cell, Fn, Obj, list_builtin, LIST_BUILTINS, MapRef, map_key, map_builtin, MAP_BUILTINS, is_sym, is_int, is_bool, arith, compare, negate, logic_not,
                   logic, equals)
 
 
@@ -71,6 +71,11 @@ class Interp:
 
     # scopes: list of dicts (innermost last) for the running function; `outer` = visible enclosing variables (by reference)
     def run_program(self, prog):
+        # a multi-module program: {"entry": statements, "modules": {name: statements}}
+        self.module_src, self.module_cache, self.exporting = {}, {}, []
+        if isinstance(prog, dict):
+            self.module_src = prog["modules"]
+            prog = prog["entry"]
         scopes = [{}]
         try:
             self.block(prog, scopes, None, None, new_scope=False)
@@ -219,6 +224,39 @@ class Interp:
             v = self.expr(st[3], scopes, outer, me)
             ob = self.expr(st[1], scopes, outer, me)
             self.field_cell(ob, st[2]).v = v
+        elif k == "import" or k == "importfrom":
+            # the module's top-level code runs the FIRST time an import of it is executed, to the end, before the importer continues;
+            # every importer gets the same instance
+            name = st[1] if k == "import" else st[2]
+            m = self.module_cache.get(name)
+            if m is None:
+                if name not in self.module_src:
+                    raise Unsupported("import of an unknown module " + name)
+                m = self.module_cache[name] = Module(name)
+                self.exporting.append(m)
+                try:
+                    try:
+                        self.block(self.module_src[name], [{}], None, None, new_scope=False)
+                    except _Return:
+                        raise Unsupported("return at module level")
+                finally:
+                    self.exporting.pop()
+            if k == "import":
+                self.assign(name, m, scopes)
+            else:
+                for nm in st[1]:
+                    if nm not in m.exports:
+                        raise Unsupported("import of a name that is not exported")
+                    scopes[-1][nm] = Cell(m.exports[nm].v)          # binds the name to the exported VALUE
+        elif k == "export":
+            # export name: type = expr   - an ordinary module-level variable whose cell importers share
+            _, name, ex, _ty = st
+            if ex[0] == "fnlit":
+                self.stmt(("def", name, ex[1], ex[2], ex[3]), scopes, outer, me)
+            else:
+                self.assign(name, self.expr(ex, scopes, outer, me), scopes)
+            if self.exporting:
+                self.exporting[-1].exports[name] = self.lookup(name, scopes, outer)
         elif k == "def":
             _, name, params, ret, body = st
             env = {}
@@ -248,6 +286,10 @@ class Interp:
     def field_cell(self, ob, name):
         if ob is NIL:
             raise Fail("lookup", "nil object")
+        if isinstance(ob, Module):
+            if name not in ob.exports:
+                raise Unsupported("`%s` is not exported" % name)
+            return ob.exports[name]           # importers see the exporter's live variable
         if not isinstance(ob, Obj) or name not in ob.vars:
             raise Unsupported("field `%s` of a non-object" % name)
         return ob.vars[name]
@@ -340,6 +382,8 @@ class Interp:
             args = [self.expr(a, scopes, outer, me) for a in e[3]]
             if ob is NIL:
                 raise Fail("lookup", "nil object")
+            if isinstance(ob, Module):
+                return self.call(self.field_cell(ob, e[2]).v, args)
             if isinstance(ob, ListRef) and e[2] in ("map", "filter"):
                 # xs.map(f): a NEW list of the VALUES f returns, element by element in order; xs.filter(f): a new list of the elements
                 # f accepts; the receiver is unchanged
@@ -555,6 +599,18 @@ def rstmts(stmts, ind, inputs=None):
                 out += rstmts(body, ind + 2, inputs)
                 out.append("%s\t}" % t)
             out.append(t + "}")
+        elif k == "import":
+            out.append("%simport %s" % (t, st[1]))
+        elif k == "importfrom":
+            out.append("%simport %s from %s" % (t, ", ".join(st[1]), st[2]))
+        elif k == "export":
+            _, name, ex, ty = st
+            if ex[0] == "fnlit":
+                out.append("%sexport %s: %s = fn(%s)%s {" % (t, name, ty, ", ".join("%s: %s" % p for p in ex[1]), (" -> " + ex[2]) if ex[2] else ""))
+                out += rstmts(ex[3], ind + 1, inputs)
+                out.append(t + "}")
+            else:
+                out.append("%sexport %s: %s = %s" % (t, name, ty, rexpr(ex, inputs)))
         elif k == "def":
             _, name, params, ret, body = st
             out.append("%s%s = fn(%s)%s {" % (t, name, ", ".join("%s: %s" % p for p in params), (" -> " + ret) if ret else ""))
@@ -566,7 +622,16 @@ def rstmts(stmts, ind, inputs=None):
 
 
 def render(prog, inputs=None):
+    if isinstance(prog, dict):
+        prog = prog["entry"]
     return "\n".join(rstmts(prog, 0, inputs)) + "\n"
+
+
+def render_modules(prog, inputs=None):
+    """the other files of a multi-module program: {file name: text}"""
+    if not isinstance(prog, dict):
+        return {}
+    return {name + ".ms": "\n".join(rstmts(st, 0, inputs)) + "\n" for name, st in prog["modules"].items()}
 
 
 def fmt_value(v):
